@@ -7,6 +7,9 @@ mod model;
 mod props;
 
 use engine::{Ctx, Fail, Known, Tier};
+
+#[global_allocator]
+static GLOBAL: engine::alloc::Track = engine::alloc::Track;
 use std::path::PathBuf;
 use std::sync::Mutex;
 use std::time::Instant;
